@@ -74,6 +74,26 @@ impl Builder {
             None
         };
 
+        // The spectrum has one cell per combination of allele counts: with many populations that is
+        // more cells than can be addressed, which is an error of the request, not of the allocator
+        let shape = projection
+            .as_ref()
+            .map(|projection| projection.project_to().clone().into_shape())
+            .unwrap_or_else(|| sample_map.shape());
+        let max_elements = isize::MAX as usize / std::mem::size_of::<f64>();
+        match shape.iter().try_fold(1usize, |acc, &n| acc.checked_mul(n)) {
+            Some(elements) if elements <= max_elements => (),
+            _ => {
+                return Err(Error::Io(io::Error::new(
+                    io::ErrorKind::InvalidInput,
+                    format!(
+                        "a spectrum with {} dimensions and shape {shape} has too many elements",
+                        shape.dimensions()
+                    ),
+                )))
+            }
+        }
+
         Ok(super::Reader::new_unchecked(reader, sample_map, projection))
     }
 
